@@ -102,6 +102,24 @@ def r1(db, rep, fe, fx):
                 txt = [last_seg(x[1]) for x in calls_in(c)]
                 if "entry" in txt or any(s_ == ("field", ("param", 1), fe) for s_ in subterms(c)):
                     entry_guard = True
+        if not entry_guard and db.hir.get(d) is not None and db.hir[d].get("vis") != "Public":
+            # a private step of a public editing function: the comparison may be made by the function that schedules the
+            # removal - look at the whole unit (the public callers of this helper with their private helpers)
+            for root in db.mir.in_file("il/control_flow_graph.rs"):
+                if "::{closure#" in root or db.hir.get(root) is None or db.hir[root].get("vis") != "Public":
+                    continue
+                unit = [u for u, _sp in unit_of(db, root)]
+                if d not in unit:
+                    continue
+                for u in unit:
+                    ub = db.mir[u]
+                    utm = terms_of(db, u, cache)
+                    for b in ub["blocks"]:
+                        t = b["t"]
+                        if t["k"] == "SwitchInt":
+                            c = utm.operand(t["discr"])
+                            if "entry" in [last_seg(x[1]) for x in calls_in(c)]:
+                                entry_guard = True
         r.decide(entry_guard, "%s|entry_protected" % d, db.where(body),
                  "%s removes blocks without looking at the entry" % last_seg(d))
         # exit update: a write of the exit field after the removal, guarded by a comparison of a *fresh* read
@@ -166,7 +184,7 @@ def unit_of(db, d):
             if h is None or h.get("vis") == "Public":
                 continue
             ins = h.get("inputs") or []
-            idx = [k + 1 for k, ty in enumerate(ins) if ty.replace("'_ ", "").startswith("&mut") and ty.endswith("ControlFlowGraph")]
+            idx = [k + 1 for k, ty in enumerate(ins) if ty.startswith("&") and ty.endswith("ControlFlowGraph")][:1]
             if len(idx) != 1:
                 continue
             seen.add(c)
